@@ -172,6 +172,26 @@ fn minmax() {
         chk!(format!("min_by!(reversed) {}", nm), konst::min_by!(a, b, |l, r| konst::const_cmp!(r.key, l.key)).id, std::cmp::min_by(a, b, |l, r| r.key.cmp(&l.key)).id);
         chk!(format!("max_by_key!(negated) {}", nm), konst::max_by_key!(a, b, |x| 10 - x.key).id, std::cmp::max_by_key(a, b, |x| 10 - x.key).id);
     }}
+    // arguments that are expressions with a side effect (a counted call): std's functions receive each
+    // argument value once, so the macro must evaluate each argument expression exactly once; observed =
+    // (syntactic position and key of the returned argument, number of evaluations). The order in which the
+    // two expressions are evaluated is not part of the property and is not observed (max_by_key! evaluates
+    // its second argument first).
+    fn pop(q: &Cell<u32>, ks: &[u8; 4], pos: u8) -> Keyed { q.set(q.get() + 1); Keyed { key: ks[pos as usize], id: 10 + pos } }
+    for k0 in 0..3u8 { for k1 in 0..3u8 { for k2 in 0..1u8 {
+        let ks = [k0, k1, k2, 1];
+        let nm = format!("popped keys {:?}", ks);
+        chk!(format!("min! argument expressions evaluated once: {}", nm), counted!(q, { let v = konst::min!(pop(&q, &ks, 0), pop(&q, &ks, 1)); (v.id, v.key) }), counted!(q, { let v = std::cmp::min(pop(&q, &ks, 0), pop(&q, &ks, 1)); (v.id, v.key) }));
+        chk!(format!("max! argument expressions evaluated once: {}", nm), counted!(q, { let v = konst::max!(pop(&q, &ks, 0), pop(&q, &ks, 1)); (v.id, v.key) }), counted!(q, { let v = std::cmp::max(pop(&q, &ks, 0), pop(&q, &ks, 1)); (v.id, v.key) }));
+        chk!(format!("min_by!(fn) argument expressions evaluated once: {}", nm), counted!(q, { let v = konst::min_by!(pop(&q, &ks, 0), pop(&q, &ks, 1), by_key); (v.id, v.key) }), counted!(q, { let v = std::cmp::min_by(pop(&q, &ks, 0), pop(&q, &ks, 1), by_key); (v.id, v.key) }));
+        chk!(format!("max_by!(fn) argument expressions evaluated once: {}", nm), counted!(q, { let v = konst::max_by!(pop(&q, &ks, 0), pop(&q, &ks, 1), by_key); (v.id, v.key) }), counted!(q, { let v = std::cmp::max_by(pop(&q, &ks, 0), pop(&q, &ks, 1), by_key); (v.id, v.key) }));
+        chk!(format!("min_by_key!(fn) argument expressions evaluated once: {}", nm), counted!(q, { let v = konst::min_by_key!(pop(&q, &ks, 0), pop(&q, &ks, 1), key_of); (v.id, v.key) }), counted!(q, { let v = std::cmp::min_by_key(pop(&q, &ks, 0), pop(&q, &ks, 1), key_of); (v.id, v.key) }));
+        chk!(format!("max_by_key!(fn) argument expressions evaluated once: {}", nm), counted!(q, { let v = konst::max_by_key!(pop(&q, &ks, 0), pop(&q, &ks, 1), key_of); (v.id, v.key) }), counted!(q, { let v = std::cmp::max_by_key(pop(&q, &ks, 0), pop(&q, &ks, 1), key_of); (v.id, v.key) }));
+        chk!(format!("min_by!(closure) argument expressions evaluated once: {}", nm), counted!(q, { let v = konst::min_by!(pop(&q, &ks, 0), pop(&q, &ks, 1), |l, r| konst::const_cmp!(l.key, r.key)); (v.id, v.key) }), counted!(q, { let v = std::cmp::min_by(pop(&q, &ks, 0), pop(&q, &ks, 1), |l, r| l.key.cmp(&r.key)); (v.id, v.key) }));
+        chk!(format!("max_by!(closure) argument expressions evaluated once: {}", nm), counted!(q, { let v = konst::max_by!(pop(&q, &ks, 0), pop(&q, &ks, 1), |l, r| konst::const_cmp!(l.key, r.key)); (v.id, v.key) }), counted!(q, { let v = std::cmp::max_by(pop(&q, &ks, 0), pop(&q, &ks, 1), |l, r| l.key.cmp(&r.key)); (v.id, v.key) }));
+        chk!(format!("min_by_key!(closure) argument expressions evaluated once: {}", nm), counted!(q, { let v = konst::min_by_key!(pop(&q, &ks, 0), pop(&q, &ks, 1), |x| x.key); (v.id, v.key) }), counted!(q, { let v = std::cmp::min_by_key(pop(&q, &ks, 0), pop(&q, &ks, 1), |x| x.key); (v.id, v.key) }));
+        chk!(format!("max_by_key!(closure) argument expressions evaluated once: {}", nm), counted!(q, { let v = konst::max_by_key!(pop(&q, &ks, 0), pop(&q, &ks, 1), |x| x.key); (v.id, v.key) }), counted!(q, { let v = std::cmp::max_by_key(pop(&q, &ks, 0), pop(&q, &ks, 1), |x| x.key); (v.id, v.key) }));
+    }}}
     for a in [0u32, 1, u32::MAX] { for b in [0u32, 1, u32::MAX] {
         chk!("min!(u32)", konst::min!(a, b), std::cmp::min(a, b));
         chk!("max!(u32)", konst::max!(a, b), std::cmp::max(a, b));
